@@ -1,29 +1,56 @@
 """
 C16 -- log retrieval returns exactly the requested bytes.
-Correspondence: real options.readFile / options.tailFile on real files vs Model/LogRead.lean.
-Monitor: the property's own statement (slice arithmetic) evaluated on the implementation's answers.
+
+Correspondence (real code vs compiled Lean model, same cases):
+  logread   options.readFile / options.tailFile on real files            vs Model/LogRead.lean
+  rpclog    SupervisorNamespaceRPCInterface.readLog / readProcess*Log /
+            tailProcess*Log over DummySupervisor with real log files      vs Model/RpcLog.lean
+  tailf     http.tail_f_producer on real files that grow / rotate / are
+            cleared / truncated / unlinked between more() calls           vs Model/TailF.lean
+  chunkenc  http.deferring_chunked_producer over a scripted producer      vs Model/Chunked.lean (encoder)
+  chunkdec  http_client.HTTPHandler fed the encoded stream in arbitrary
+            fragmentations (recv stub and real socketpair)                vs Model/Chunked.lean (decoder)
+Monitors: the property statement evaluated on the implementation's answers (Python slices of the
+file content, an independent chunked decoder, the expected /logtail stream), plus the whole real
+chain logtail_handler -> deferring producers -> HTTPHandler.
 """
-import os
+import os, socket
 from framework import Infra
 
 ID = 'C16'
 LEAN_PROPS = 'SupervisorModel.Props.C16'
 DRIVER = 'drv_c16'
-GENERATED = ['LogRead']
+GENERATED = ['LogRead', 'TailF', 'Chunked', 'Rpc']
 TRUSTED = [
-    "modelled, not verified: Python file objects (seek/tell/read on a regular file = drop/take on a byte list)",
-    "offsets/lengths beyond 64 bits (f.seek OverflowError) are outside the model; XML-RPC carries 32-bit integers",
+    "modelled, not verified: Python file objects (seek/tell/read on a regular file = drop/take on a byte list), os.stat/fstat inode and size",
+    "offsets/lengths beyond 64 bits (f.seek OverflowError) are outside the model; XML-RPC carries 32-bit integers, int() of an XML-RPC int is the identity",
+    "bytes.decode('utf-8','replace') is a parameter of the theorems (any total function); the driver's utf8Replace reproduces CPython's policy and is compared with it on every run",
+    "'%x' % n, bytes.find, bytes.split()[0] and int(tok,16) on lower-case hex digit strings are modelled (hexDigits, splitCRLF, firstToken, parseHex) and exercised, not verified",
+    "asyncore/asynchat socket plumbing around handle_read (recv sizes, handle_error/close), HTTP status line and header parsing of HTTPHandler: exercised by the socketpair runs, not modelled",
+    "the deferring composite/globbing/hooked producers and deferring_http_request.done(): exercised by the chain monitor, not modelled",
 ]
-ASSUMPTIONS = ["the log file is not modified during one readFile/tailFile call"]
-RULE = ("cases = (file content, offset, length) triples: exhaustive small grid [-6,12]^2 over sizes 0..8 plus "
-        "random 32-bit values and content classes (ascii, binary, multi-byte UTF-8); a case is non-trivial "
-        "when the file is non-empty; distinct = distinct (content-hash, offset, length, op)")
+ASSUMPTIONS = [
+    "the log file is not modified during one readFile/tailFile/more() call",
+    "a log that is cleared and grows past the producer's old offset between two polls, and inode reuse, are indistinguishable from an append for tail_f_producer (DESIGN.md C16: outside the model)",
+    "the /logtail stream is observed at the producer chain (what is handed to the channel), TCP segmentation is simulated by arbitrary fragmentation of that byte stream",
+]
+RULE = ("logread/rpclog: (content, offset, length) triples -- exhaustive small grid [-6,12]^2 over sizes 0..8 plus random 32-bit "
+        "and edge values, content classes ascii / multi-byte UTF-8 / binary, all four moods, missing/unset log; "
+        "tailf: random scripts of append/rotate/clear/truncate/unlink/idle with a poll after each; "
+        "chunked: chunk lists with sizes around hex-digit boundaries and CR/LF-laden data, every fragmentation of short "
+        "streams exhaustively plus random cuts, byte-at-a-time and whole; non-trivial = non-empty file/stream; "
+        "distinct = distinct (kind, content-hash, arguments or cut positions)")
+
+MARKER = b'==> File truncated <==\n'
 
 
 def hexs(b):
     return b.hex() if b else '-'
 
 
+# =================================================================================================
+# readFile / tailFile (unchanged from the first version)
+# =================================================================================================
 def spec_read(f, off, ln):
     """the property statement for readLog"""
     if off < 0:
@@ -33,11 +60,15 @@ def spec_read(f, off, ln):
     return 'ok ' + hexs(f[off:] if ln == 0 else f[off:off + ln])
 
 
-def spec_tail(f, off, ln):
+def spec_tail_window(f, off, ln):
     sz = len(f)
     n = max(0, min(ln, sz))
     data = b'' if off >= sz else f[sz - n:]
-    return 'ok %s %d %d' % (hexs(data), sz, 1 if sz > off + ln else 0)
+    return data, sz, (1 if sz > off + ln else 0)
+
+
+def spec_tail(f, off, ln):
+    return 'ok %s %d %d' % ((lambda d, s, o: (hexs(d), s, o))(*spec_tail_window(f, off, ln)))
 
 
 def impl_lines(path, content, ops):
@@ -51,7 +82,6 @@ def impl_lines(path, content, ops):
             except ValueError as e:
                 out.append('err ' + str(e.args[0]))
         else:
-            # tailFile decodes its data; compare bytes, so re-read through the raw window
             try:
                 d, o, ov = options.tailFile(path, off, ln)
                 if isinstance(d, str):
@@ -63,15 +93,24 @@ def impl_lines(path, content, ops):
 
 
 def gen_content(rng, n):
-    kind = rng.randrange(3)
+    kind = rng.randrange(4)
     if kind == 0:
         return bytes(rng.choice(b'abcxyz\n') for _ in range(n))
     if kind == 1:
-        return ('é€x' * n).encode()[:n] if n else b''
+        return ('é€x\U0001f600' * n).encode()[:n] if n else b''
+    if kind == 2:
+        return bytes(rng.choice(b'ab\x1b\x00\r\n\xff\xc3\xa9\xe2\x82') for _ in range(n))
     return bytes(rng.randrange(256) for _ in range(n))
 
 
-def run(ctx):
+def rand_int(rng, sz):
+    r = rng.random()
+    if r < 0.5: return rng.randrange(-3, sz + 4)
+    if r < 0.7: return rng.choice([0, 1, -1, 2**31 - 1, -2**31, 2**31 - 2])
+    return rng.randrange(-2**31, 2**31)
+
+
+def run_logread(ctx):
     rng = ctx.rng
     cases, impls = [], []
     path = os.path.join(ctx.scratch, 'log')
@@ -82,43 +121,718 @@ def run(ctx):
         for (op, off, ln), line in zip(ops, il):
             want = (spec_read if op == 'read' else spec_tail)(content, off, ln)
             ctx.count('op:' + op); ctx.count('answer:' + line.split()[0] + (':' + line.split()[1] if line.startswith('err') else ''))
-            ctx.case_done((content, op, off, ln), nontrivial=len(content) > 0)
+            ctx.case_done(('logread', content, op, off, ln), nontrivial=len(content) > 0)
             if line != want:
                 kind = 'decode-error' if line.startswith('exc') else 'wrong-window'
                 ctx.violation(kind + ':' + op, 'required %s, observed %s' % (want, line),
-                              {'content_hex': hexs(content), 'op': op, 'offset': off, 'length': ln})
+                              {'part': 'logread', 'content_hex': hexs(content), 'op': op, 'offset': off, 'length': ln})
         cases.append(('case logread file=' + hexs(content), ['%s %d %d' % o for o in ops]))
         impls.append(il)
-    # exhaustive small grid (ASCII content so that tailFile's text conversion is the identity)
     top = 6 if ctx.tier == 'quick' else 9
     for sz in range(0, top):
         content = bytes(97 + i for i in range(sz))
         ops = [(op, off, ln) for op in ('read', 'tail') for off in range(-6, 13) for ln in range(-6, 13)]
         one(content, ops)
-    # random: 32-bit values and edge values, binary content only for `read` (bytes API)
-    edges = [0, 1, -1, 2**31 - 1, -2**31, 2**31 - 2]
     for _ in range(ctx.n(150, 3000)):
         sz = rng.choice([0, 1, 2, 3, 5, 8, 13, 64, 200])
         content = gen_content(rng, sz)
         ascii_only = all(c < 128 for c in content)
         ops = []
         for _ in range(8):
-            def val():
-                r = rng.random()
-                if r < 0.5: return rng.randrange(-3, sz + 4)
-                if r < 0.7: return rng.choice(edges)
-                return rng.randrange(-2**31, 2**31)
             op = rng.choice(['read', 'tail']) if ascii_only else 'read'
-            ops.append((op, val(), val()))
+            ops.append((op, rand_int(rng, sz), rand_int(rng, sz)))
         one(content, ops)
     ctx.sample({'case': cases[3][0], 'ops': cases[3][1][:5], 'impl': impls[3][:5]})
-    ctx.sample({'case': cases[-1][0], 'ops': cases[-1][1][:3], 'impl': impls[-1][:3]})
     ctx.correspond('logread', cases, impls)
 
+
+# =================================================================================================
+# the XML-RPC layer: readLog, readProcessStdoutLog/StderrLog, tailProcessStdoutLog/StderrLog
+# =================================================================================================
+MOODS = [-1, 0, 1, 2]          # SHUTDOWN, RESTARTING, RUNNING, FATAL
+
+
+def make_interface(mood, main_log, proc_log, channel='stdout'):
+    from supervisor.tests.base import DummyOptions, DummyPConfig, PopulatedDummySupervisor
+    from supervisor.rpcinterface import SupervisorNamespaceRPCInterface
+    opts = DummyOptions()
+    kw = {channel + '_logfile': proc_log}
+    sup = PopulatedDummySupervisor(opts, 'grp', DummyPConfig(opts, 'proc', '/bin/true', **kw))
+    opts.logfile = main_log
+    opts.mood = mood
+    return SupervisorNamespaceRPCInterface(sup)
+
+
+def xml_roundtrip_monitor(ctx, value, inp):
+    """the answer as the bundled client (xmlrpclib behind SupervisorTransport) receives it"""
+    from supervisor import xmlrpc
+    from supervisor.compat import xmlrpclib
+    text = value if isinstance(value, str) else value[0]
+    try:
+        back = xmlrpclib.loads(xmlrpc.xmlrpc_marshal(value))[0][0]
+    except Exception as e:
+        bad = sorted(set(c for c in text if ord(c) < 32 and c not in '\t\n\r'))
+        kind = 'xmlrpc-answer-not-wellformed:control-char' if bad else 'xmlrpc-answer-unparseable'
+        ctx.count('xml:' + kind)
+        ctx.violation(kind, 'the XML-RPC response for this log window cannot be parsed by the client (%s); characters %r'
+                      % (type(e).__name__, bad), inp)
+        return
+    got = back if isinstance(value, str) else back[0]
+    if got != text:
+        kind = 'xmlrpc-answer-altered:cr-normalised' if got == text.replace('\r\n', '\n').replace('\r', '\n') else 'xmlrpc-answer-altered'
+        ctx.count('xml:' + kind)
+        ctx.violation(kind, 'the client receives %r for the window %r' % (got[:40], text[:40]), inp)
+    else:
+        ctx.count('xml:roundtrip-ok')
+
+
+def rpc_one(ctx, mood, logkind, content, ops, path, cases, impls, force_xml=False):
+    """one case = one mood + one log file; ops = [(method, found, off, len)]"""
+    from supervisor.xmlrpc import RPCError, Faults
+    if logkind == 'present':
+        with open(path, 'wb') as f:
+            f.write(content)
+        logarg = path
+    elif logkind == 'missing':
+        logarg = path + '.does-not-exist'
+    else:
+        logarg = None
+    il, ol = [], []
+    for meth, found, off, ln in ops:
+        channel = 'stderr' if 'Stderr' in meth else 'stdout'
+        rpc = make_interface(mood, logarg, logarg, channel)
+        name = 'grp:proc' if found else 'grp:nosuch'
+        inp = {'part': 'rpclog', 'mood': mood, 'log': logkind, 'content_hex': hexs(content), 'method': meth,
+               'name': name, 'offset': off, 'length': ln}
+        try:
+            if meth in ('readLog', 'readMainLog'):
+                v = getattr(rpc, meth)(off, ln)
+            else:
+                v = getattr(rpc, meth)(name, off, ln)
+            if isinstance(v, str):
+                line = 'ok ' + hexs(v.encode('utf-8'))
+            else:
+                line = 'ok %s %d %d' % (hexs(v[0].encode('utf-8')), v[1], 1 if v[2] else 0)
+            if force_xml or ctx.tier == 'thorough' or ctx.rng.random() < 0.5:
+                xml_roundtrip_monitor(ctx, v, inp)
+        except RPCError as e:
+            line = 'fault %d' % e.code
+        except Exception as e:          # anything else would be an HTTP 500
+            line = 'exc ' + type(e).__name__
+        il.append(line)
+        op = ('read %d %d' % (off, ln)) if meth in ('readLog', 'readMainLog') else \
+             ('%s %d %d %d' % ('pread' if meth.startswith('read') else 'ptail', 1 if found else 0, off, ln))
+        ol.append(op)
+        # ---- monitor: the property statement
+        is_tail = meth.startswith('tail')
+        if mood < 1:
+            want = 'fault %d' % Faults.SHUTDOWN_STATE
+        elif meth not in ('readLog', 'readMainLog') and not found:
+            want = 'fault %d' % Faults.BAD_NAME
+        elif logkind != 'present':
+            want = 'ok - 0 0' if is_tail else 'fault %d' % Faults.NO_FILE
+        elif is_tail:
+            d, sz, ov = spec_tail_window(content, off, ln)
+            want = 'ok %s %d %d' % (hexs(d.decode('utf-8', 'replace').encode('utf-8')), sz, ov)
+        else:
+            s = spec_read(content, off, ln)
+            want = ('fault %d' % Faults.BAD_ARGUMENTS) if s.startswith('err') else \
+                   'ok ' + hexs((bytes.fromhex(s[3:]) if s[3:] != '-' else b'').decode('utf-8', 'replace').encode('utf-8'))
+        ctx.count('rpc:' + meth); ctx.count('rpc-answer:' + ' '.join(line.split()[:2] if not line.startswith('ok') else ['ok']))
+        ctx.case_done(('rpclog', mood, logkind, content, meth, found, off, ln), nontrivial=logkind == 'present' and len(content) > 0)
+        if line != want:
+            kind = ('log-rpc-raised:' + line.split()[1]) if line.startswith('exc') else 'log-rpc-wrong-answer:' + ('tail' if is_tail else 'read')
+            ctx.violation(kind, 'required %s, observed %s' % (want, line), inp)
+    cases.append(('case rpclog mood=%d log=%s' % (mood, hexs(content) if logkind == 'present' else logkind), ol))
+    impls.append(il)
+
+
+READ_METHS = ['readLog', 'readMainLog', 'readProcessStdoutLog', 'readProcessStderrLog', 'readProcessLog']
+TAIL_METHS = ['tailProcessStdoutLog', 'tailProcessStderrLog', 'tailProcessLog']
+
+# regression corpus: F7 (window cutting a multi-byte character, binary log) -- must pass now
+CORPUS_RPC = [
+    (1, 'present', 'aé'.encode(), [('readProcessStdoutLog', True, 0, 2), ('tailProcessStdoutLog', True, 0, 1),
+                                   ('readLog', True, 0, 2), ('readProcessStderrLog', True, -1, 0)]),
+    (1, 'present', b'\xff\xfe\x80abc', [('readLog', True, 0, 0), ('readProcessStdoutLog', True, 1, 3), ('tailProcessStderrLog', True, 0, 4)]),
+    (1, 'present', '€€'.encode(), [('readProcessStdoutLog', True, 1, 4), ('tailProcessStdoutLog', True, 0, 5), ('tailProcessStdoutLog', True, 0, 2)]),
+    (1, 'present', 'x\U0001f600y'.encode(), [('readLog', True, 2, 2), ('readLog', True, -3, 0), ('tailProcessLog', True, 0, 3)]),
+    # open findings F25 / F26: control characters and CR through the XML-RPC transport
+    (1, 'present', b'a\x1bb', [('readProcessStdoutLog', True, 0, 0), ('tailProcessStdoutLog', True, 0, 3)]),
+    (1, 'present', b'a\rb', [('readLog', True, 0, 0)]),
+]
+
+
+def run_rpclog(ctx):
+    rng = ctx.rng
+    cases, impls = [], []
+    path = os.path.join(ctx.scratch, 'rpclog')
+    for mood, kind, content, ops in CORPUS_RPC:
+        rpc_one(ctx, mood, kind, content, ops, path, cases, impls, force_xml=True)
+    # every window of short multi-byte and binary contents (all cuts)
+    for content in ['aé€'.encode(), b'\xc3', b'\xe2\x82', 'é'.encode() * 2, b'a\x80\xffb', '\U0001f600'.encode()]:
+        n = len(content)
+        ops = [(m, True, off, ln) for m in ('readProcessStdoutLog', 'tailProcessStdoutLog')
+               for off in range(-n - 1, n + 2) for ln in range(0, n + 2)]
+        rpc_one(ctx, 1, 'present', content, ops, path, cases, impls)
+    for _ in range(ctx.n(120, 2500)):
+        sz = rng.choice([0, 1, 2, 3, 5, 8, 13, 64, 200])
+        content = gen_content(rng, sz)
+        mood = rng.choice(MOODS) if rng.random() < 0.3 else 1
+        kind = rng.choice(['present'] * 8 + ['missing', 'unset'])
+        ops = []
+        for _ in range(6):
+            m = rng.choice(READ_METHS + TAIL_METHS)
+            ops.append((m, rng.random() < 0.9, rand_int(rng, sz), rand_int(rng, sz)))
+        rpc_one(ctx, mood, kind, content, ops, path, cases, impls)
+    ctx.sample({'case': cases[0][0], 'ops': cases[0][1], 'impl': impls[0]})
+    ctx.correspond('rpclog', cases, impls)
+
+
+# =================================================================================================
+# tail_f_producer on real files
+# =================================================================================================
+class _Req(object):
+    pass
+
+
+class LogWorld:
+    """a log path whose file is appended to, rotated, cleared, truncated, unlinked; keeps a descriptor
+    on every file it ever created, so that contents stay readable after unlink and inodes are never reused"""
+    def __init__(self, path):
+        self.path = path
+        self.fds = {}          # ino -> fd (read/write)
+        self.path_ino = None
+        self.n = 0
+
+    def create(self, content):
+        fd = os.open(self.path, os.O_RDWR | os.O_CREAT | os.O_EXCL)
+        os.write(fd, content)
+        ino = os.fstat(fd).st_ino
+        self.fds[ino] = fd
+        self.path_ino = ino
+        return ino
+
+    def content(self, ino):
+        fd = self.fds[ino]
+        return os.pread(fd, os.fstat(fd).st_size, 0)
+
+    def append(self, ino, data):
+        fd = self.fds[ino]
+        os.pwrite(fd, data, os.fstat(fd).st_size)
+
+    def rotate(self, content):
+        self.n += 1
+        if self.path_ino is not None:
+            os.rename(self.path, '%s.%d' % (self.path, self.n))
+        return self.create(content)
+
+    def unlink(self):
+        if self.path_ino is not None:
+            os.unlink(self.path)
+            self.path_ino = None
+
+    def truncate(self, ino, n):
+        os.ftruncate(self.fds[ino], n)
+
+    def close(self):
+        for fd in self.fds.values():
+            os.close(fd)
+
+
+def tailf_case(ctx, script, head, idx, real_chain=False):
+    """script: initial content, then ops; returns (case_line, op_lines, impl_lines).  A poll follows every op."""
+    from supervisor.http import tail_f_producer, NOT_DONE_YET
+    d = os.path.join(ctx.scratch, 'tf%d' % idx)
+    os.makedirs(d)
+    w = LogWorld(os.path.join(d, 'log'))
+    init = script[0]
+    follow = w.create(init)                 # the inode the producer must be following, by the statement
+    req = _Req()
+    prod = tail_f_producer(req, w.path, head)
+    case = 'case tailf ino=%d head=%d content=%s' % (follow, head, hexs(init))
+    ops, il = [], []
+    # monitor state: what the statement promises
+    pos = max(0, len(init) - head)
+    expected, delivered, markers_due, markers_seen = b'', b'', 0, 0
+    for op in script[1:]:
+        kind = op[0]
+        ctx.count('tailf-op:' + kind)
+        if kind == 'append':
+            w.append(follow, op[1])
+        elif kind == 'rotate':
+            w.rotate(op[1])
+        elif kind == 'clear':
+            w.truncate(follow, 0)
+            if op[1]:
+                w.append(follow, op[1])
+        elif kind == 'truncate':
+            w.truncate(follow, op[1])
+        elif kind == 'unlink':
+            w.unlink()
+        elif kind == 'idle':
+            pass
+        # ---- poll
+        try:
+            r = prod.more()
+        except Exception as e:
+            il.append('exc ' + type(e).__name__)
+            ctx.violation('tailf-raised:' + type(e).__name__, 'more() raised %r after %r' % (e, op), {'part': 'tailf', 'head': head, 'script': ser(script)})
+            break
+        path_ino = w.path_ino
+        if path_ino is not None and path_ino != follow:
+            follow = path_ino
+            pos = 0
+        content = w.content(follow)
+        ops.append('more %s %s' % ('-' if path_ino is None else path_ino, hexs(content)))
+        if r is NOT_DONE_YET:
+            il.append('notdone')
+        elif isinstance(r, str):
+            il.append('marker ' + hexs(r.encode('utf-8'))); markers_seen += 1
+        else:
+            il.append('data ' + hexs(r)); delivered += r
+        if len(content) < pos:
+            pos = 0; markers_due += 1
+        else:
+            expected += content[pos:]; pos = len(content)
+        ctx.count('tailf-out:' + il[-1].split()[0])
+    # one more idle poll so that bytes held back by a marker answer are delivered
+    for _ in range(2):
+        r = prod.more()
+        content = w.content(follow)
+        ops.append('more %s %s' % ('-' if w.path_ino is None else w.path_ino, hexs(content)))
+        if r is NOT_DONE_YET: il.append('notdone')
+        elif isinstance(r, str): il.append('marker ' + hexs(r.encode('utf-8'))); markers_seen += 1
+        else: il.append('data ' + hexs(r)); delivered += r
+        if len(content) < pos:
+            pos = 0; markers_due += 1
+        else:
+            expected += content[pos:]; pos = len(content)
+    prod._close(); w.close()
+    ctx.case_done(('tailf', head, ser(script)), nontrivial=len(script) > 1)
+    inp = {'part': 'tailf', 'head': head, 'script': ser(script)}
+    if delivered != expected:
+        k = next((i for i in range(min(len(delivered), len(expected))) if delivered[i] != expected[i]), min(len(delivered), len(expected)))
+        kind = 'tailf-bytes-duplicated' if len(delivered) > len(expected) else 'tailf-bytes-lost' if len(delivered) < len(expected) else 'tailf-bytes-wrong'
+        ctx.violation(kind, 'stream differs from the log at byte %d: delivered %d bytes, the statement requires %d' % (k, len(delivered), len(expected)), inp)
+    if markers_seen != markers_due:
+        ctx.violation('tailf-marker-count', '%d truncation markers for %d shrinks' % (markers_seen, markers_due), inp)
+    return case, ops, il
+
+
+def ser(script):
+    return [script[0].hex()] + [[o[0]] + [x.hex() if isinstance(x, bytes) else x for x in o[1:]] for o in script[1:]]
+
+
+def deser(s):
+    return [bytes.fromhex(s[0])] + [tuple([o[0]] + [bytes.fromhex(x) if isinstance(x, str) else x for x in o[1:]]) for o in s[1:]]
+
+
+def gen_script(rng):
+    def data(maxn=12):
+        return bytes(rng.choice(b'ab\n\xc3\xa9\x00\r') for _ in range(rng.randrange(1, maxn)))
+    script = [data(40) if rng.random() < 0.8 else b'']
+    size = len(script[0])
+    for _ in range(rng.randrange(1, 10)):
+        r = rng.random()
+        if r < 0.4:
+            d = data(); script.append(('append', d)); size += len(d)
+        elif r < 0.55:
+            d = data(20) if rng.random() < 0.7 else b''
+            script.append(('rotate', d)); size = len(d)
+        elif r < 0.7:
+            # cleared, possibly already rewritten -- but not past what has been delivered (ASSUMPTIONS)
+            d = data(max(2, size)) if size > 1 and rng.random() < 0.5 else b''
+            d = d[:max(0, size - 1)]
+            if size == 0:
+                script.append(('idle',))
+            else:
+                script.append(('clear', d)); size = len(d)
+        elif r < 0.8:
+            if size > 0:
+                k = rng.randrange(0, size); script.append(('truncate', k)); size = k
+            else:
+                script.append(('idle',))
+        elif r < 0.88:
+            script.append(('unlink',))
+        else:
+            script.append(('idle',))
+    return script
+
+
+CORPUS_TAILF = [
+    # F8: the marker is text; growth after truncation resumes at 0
+    (1024, [b'hello\n', ('append', b'more\n'), ('clear', b''), ('append', b'new\n')]),
+    (3, [b'0123456789', ('append', b'ab'), ('rotate', b'fresh'), ('append', b'!'), ('unlink',), ('append', b'?'), ('rotate', b'')]),
+    (0, [b'abc', ('truncate', 1), ('append', b'xyz')]),
+    (1024, [b'', ('idle',), ('append', b'\xc3'), ('append', b'\xa9')]),
+]
+
+
+def run_tailf(ctx):
+    rng = ctx.rng
+    cases, impls = [], []
+    idx = 0
+    scripts = [(h, s) for h, s in CORPUS_TAILF]
+    for _ in range(ctx.n(150, 2500)):
+        scripts.append((rng.choice([0, 1, 5, 1024, 1024, 1024]), gen_script(rng)))
+    for head, script in scripts:
+        c, ops, il = tailf_case(ctx, script, head, idx); idx += 1
+        cases.append((c, ops)); impls.append(il)
+    ctx.sample({'case': cases[0][0][:80], 'ops': [o[:60] for o in cases[0][1]], 'impl': impls[0]})
+    ctx.correspond('tailf', cases, impls)
+
+
+# =================================================================================================
+# chunked encoder / decoder
+# =================================================================================================
+class Scripted:
+    def __init__(self, items):
+        self.items = list(items)
+    def more(self):
+        return self.items.pop(0)
+
+
+def ref_chunk_decode(stream):
+    """independent decoder of a (possibly unterminated) chunked body -> (chunks, terminated)"""
+    chunks, i = [], 0
+    while i < len(stream):
+        j = stream.index(b'\r\n', i)
+        n = int(stream[i:j].split(b';')[0], 16)
+        if n == 0:
+            return chunks, True
+        d = stream[j + 2:j + 2 + n]
+        if len(d) != n or stream[j + 2 + n:j + 4 + n] != b'\r\n':
+            raise ValueError('truncated chunk')
+        chunks.append(d); i = j + 4 + n
+    return chunks, False
+
+
+def enc_case(ctx, items):
+    """items: list of ('nd',) | ('b', bytes) | ('s', str)"""
+    from supervisor.http import deferring_chunked_producer, NOT_DONE_YET
+    real = [NOT_DONE_YET if it[0] == 'nd' else it[1] for it in items]
+    prod = deferring_chunked_producer(Scripted(real + [b''] * 4))
+    ops, il, stream = [], [], b''
+    payload, ended = b'', False
+    for it in items:
+        ops.append('nd' if it[0] == 'nd' else '%s %s' % (it[0], hexs(it[1] if it[0] == 'b' else it[1].encode('utf-8'))))
+        try:
+            r = prod.more()
+        except Exception as e:
+            il.append('exc ' + type(e).__name__)
+            ctx.violation('chunked-producer-raised:' + type(e).__name__, 'more() raised %r for %r' % (e, it),
+                          {'part': 'chunkenc', 'items': [[i[0]] + ([i[1].hex()] if i[0] == 'b' else [i[1]] if i[0] == 's' else []) for i in items]})
+            return ops, il, None
+        if r is NOT_DONE_YET:
+            il.append('nd')
+        else:
+            il.append('out ' + hexs(r)); stream += r
+        if it[0] != 'nd' and not ended:
+            b = it[1] if it[0] == 'b' else it[1].encode('utf-8')
+            if b: payload += b
+            else: ended = True
+        ctx.count('enc-item:' + it[0])
+    inp = {'part': 'chunkenc', 'items': [[i[0]] + ([i[1].hex()] if i[0] == 'b' else [i[1]] if i[0] == 's' else []) for i in items]}
+    try:
+        chunks, term = ref_chunk_decode(stream)
+        if b''.join(chunks) != payload or term != ended:
+            ctx.violation('chunked-stream-wrong', 'an independent decoder reads %r (terminated=%s) from the stream, the producer was given %r (ended=%s)'
+                          % (b''.join(chunks)[:40], term, payload[:40], ended), inp)
+    except ValueError as e:
+        ctx.violation('chunked-stream-malformed', 'the produced stream is not a well-formed chunked body: %s' % e, inp)
+    ctx.case_done(('chunkenc', tuple(ops)), nontrivial=bool(payload))
+    return ops, il, stream
+
+
+class RecListener(object):
+    def __init__(self):
+        self.fed, self.is_done, self.errors = [], False, []
+    def status(self, url, status): pass
+    def error(self, url, error): self.errors.append(error)
+    def response_header(self, url, name, value): pass
+    def done(self, url): self.is_done = True
+    def feed(self, url, data): self.fed.append(bytes(data))
+    def close(self, url): pass
+
+
+HEADER = b'HTTP/1.1 200 OK\r\nServer: Medusa/1.12\r\nContent-Type: text/plain;charset=utf-8\r\nTransfer-Encoding: chunked\r\n\r\n'
+
+
+def dec_case(ctx, segs, use_socket=False, header_segs=None):
+    """feed the real HTTPHandler: the response header, then the body segments one handle_read() each"""
+    from supervisor.http_client import HTTPHandler
+    lst = RecListener()
+    a = b = None
+    if use_socket:
+        a, b = socket.socketpair()
+        h = HTTPHandler(lst, conn=a, map={})
+        def give(data):
+            b.sendall(data); h.handle_read()
+    else:
+        h = HTTPHandler(lst, conn=None, map={})
+        def give(data):
+            h.recv = lambda n: data
+            h.handle_read()
+    h.url = 'http://x/logtail/p'
+    il = []
+    try:
+        for hs in (header_segs or [HEADER]):
+            give(hs)
+        for s in segs:
+            before = len(lst.fed)
+            try:
+                give(s)
+                err = '-'
+            except Exception as e:
+                err = type(e).__name__
+            new = lst.fed[before:]
+            il.append('fed=%s done=%d err=%s' % (','.join(hexs(x) for x in new) if new else '-', 1 if lst.is_done else 0, err))
+            if err != '-':
+                break
+    finally:
+        if a is not None:
+            a.close(); b.close()
+    return il, lst
+
+
+def splits_exhaustive(stream):
+    n = len(stream)
+    for mask in range(1 << (n - 1)):
+        cuts = [i + 1 for i in range(n - 1) if mask >> i & 1]
+        yield [stream[x:y] for x, y in zip([0] + cuts, cuts + [n])]
+
+
+def split_random(rng, stream, pieces):
+    n = len(stream)
+    cuts = sorted(set(rng.randrange(1, n) for _ in range(min(pieces, n - 1)))) if n > 1 else []
+    return [stream[x:y] for x, y in zip([0] + cuts, cuts + [n])]
+
+
+def gen_chunks(rng):
+    def piece():
+        r = rng.random()
+        if r < 0.5: n = rng.randrange(1, 6)
+        elif r < 0.8: n = rng.choice([9, 10, 15, 16, 17, 31, 255, 256, 257])
+        else: n = rng.choice([4095, 4096, 4097, 70000]) if rng.random() < 0.15 else rng.randrange(1, 600)
+        alphabet = rng.choice([b'ab', b'\r\n', b'\r\n0a', b'0\r\n\r\n1f'])
+        return bytes(rng.choice(alphabet) for _ in range(n))
+    return [piece() for _ in range(rng.randrange(1, 5))]
+
+
+def run_chunked(ctx):
+    from supervisor.http import deferring_chunked_producer
+    rng = ctx.rng
+    # ---- encoder
+    ecases, eimpls = [], []
+    corpus_items = [
+        [('s', '==> File truncated <==\n'), ('b', b'abc')],                # F8
+        [('nd',), ('b', b'x' * 16), ('s', 'é€'), ('nd',), ('b', b''), ('b', b'late'), ('nd',)],
+        [('s', ''), ('b', b'after end')],
+    ]
+    streams = []
+    for _ in range(ctx.n(120, 2000)):
+        items = []
+        for _ in range(rng.randrange(1, 7)):
+            r = rng.random()
+            if r < 0.2: items.append(('nd',))
+            elif r < 0.7: items.append(('b', rng.choice(gen_chunks(rng))[:300] if rng.random() < 0.93 else b''))
+            else: items.append(('s', rng.choice(['==> File truncated <==\n', 'é', 'x€y' * rng.randrange(1, 9), 'plain', '' if rng.random() < 0.2 else '\r\n'])))
+        corpus_items.append(items)
+    for items in corpus_items:
+        ops, il, stream = enc_case(ctx, items)
+        ecases.append(('case chunkenc', ops)); eimpls.append(il)
+    ctx.sample({'case': 'chunkenc', 'ops': ecases[0][1], 'impl': eimpls[0]})
+    ctx.correspond('chunkenc', ecases, eimpls)
+
+    # ---- decoder: encoded streams produced by the real producer, fragmented
+    dcases, dimpls = [], []
+    def encode_real(chunks, close):
+        prod = deferring_chunked_producer(Scripted(list(chunks) + [b''] * 3))
+        s = b''.join(prod.more() for _ in chunks)
+        if close:
+            s += prod.more()
+        return s
+    def one(chunks, close, segs, use_socket):
+        il, lst = dec_case(ctx, segs, use_socket)
+        dcases.append(('case chunkdec', ['seg ' + hexs(s) for s in segs])); dimpls.append(il)
+        got = b''.join(lst.fed)
+        inp = {'part': 'chunkdec', 'chunks': [c.hex() for c in chunks], 'close': close, 'cuts': [len(s) for s in segs], 'socket': use_socket}
+        ctx.count('dec:segments', len(segs)); ctx.count('dec:cases'); ctx.count('dec:socket' if use_socket else 'dec:recv-stub')
+        ctx.case_done(('chunkdec', tuple(chunks), close, tuple(len(s) for s in segs)), nontrivial=True)
+        if got != b''.join(chunks) or any('err=-' not in l for l in il) or lst.errors:
+            ctx.violation('client-reassembly-wrong', 'the bundled client reassembled %d bytes (%r...) from a stream carrying %d bytes; errors %r'
+                          % (len(got), got[:30], len(b''.join(chunks)), (lst.errors or [l for l in il if 'err=-' not in l])[:1]), inp)
+    # small-scope exhaustive: every fragmentation of short streams
+    small = [[b'a'], [b'\r\n'], [b'ab', b'\r'], [b'0\r\n']]
+    if ctx.tier == 'thorough' or ctx.boost > 1:
+        small += [[b'\n\r\n', b'x'], [b'a' * 3, b'\r\n\r']]
+    for chunks in small:
+        for close in (False, True):
+            s = encode_real(chunks, close)
+            if len(s) <= 15:
+                for segs in splits_exhaustive(s):
+                    one(chunks, close, segs, False)
+    for k in range(ctx.n(150, 2500)):
+        chunks = gen_chunks(rng)
+        close = rng.random() < 0.2
+        s = encode_real(chunks, close)
+        mode = rng.randrange(5)
+        if mode == 0 and len(s) < 400: segs = [s[i:i + 1] for i in range(len(s))]
+        elif mode == 1: segs = [s[i:i + 4096] for i in range(0, len(s), 4096)]
+        else: segs = [p for q in split_random(rng, s, rng.choice([1, 2, 3, 8, 40])) for p in [q[i:i + 4096] for i in range(0, len(q), 4096)]]
+        one(chunks, close, segs, use_socket=(k % 3 == 0))
+    ctx.sample({'case': 'chunkdec', 'ops': dcases[-1][1][:4], 'impl': dimpls[-1][:4]})
+    ctx.correspond('chunkdec', dcases, dimpls)
+
+
+# =================================================================================================
+# the whole real chain: logtail_handler -> tail_f_producer -> deferring producers -> HTTPHandler
+# =================================================================================================
+class _Srv:
+    SERVER_IDENT = 'verif'
+    class logger:
+        @staticmethod
+        def log(*a): pass
+
+
+class _Chan:
+    def __init__(self):
+        self.producers, self.server, self.addr, self.closed = [], _Srv(), ('127.0.0.1', 1), False
+    def push_with_producer(self, p): self.producers.append(p)
+    def close_when_done(self): self.closed = True
+
+
+def chain_case(ctx, script, idx, main):
+    from supervisor.http import deferring_http_request, logtail_handler, mainlogtail_handler, NOT_DONE_YET
+    from supervisor.tests.base import DummyOptions, DummyPConfig, PopulatedDummySupervisor
+    rng = ctx.rng
+    d = os.path.join(ctx.scratch, 'ch%d' % idx); os.makedirs(d)
+    w = LogWorld(os.path.join(d, 'log'))
+    follow = w.create(script[0])
+    opts = DummyOptions()
+    sup = PopulatedDummySupervisor(opts, 'grp', DummyPConfig(opts, 'proc', '/bin/true', stdout_logfile=w.path))
+    opts.logfile = w.path
+    ch = _Chan()
+    uri = '/mainlogtail' if main else '/logtail/grp:proc'
+    req = deferring_http_request(ch, 'GET %s HTTP/1.1' % uri, 'GET', uri, '1.1', ['Host: x'])
+    (mainlogtail_handler if main else logtail_handler)(sup).handle_request(req)
+    inp = {'part': 'chain', 'main': main, 'script': ser(script)}
+    if len(ch.producers) != 1 or ch.closed:
+        ctx.violation('logtail-not-streaming', 'the handler pushed %d producers, close_when_done=%s' % (len(ch.producers), ch.closed), inp)
+        return
+    prod = ch.producers[0]
+    stream = b''
+    pos = max(0, len(script[0]) - 1024)
+    expected = b''
+    def pull():
+        nonlocal stream, pos, expected, follow
+        for _ in range(3):
+            r = prod.more()
+            if r is not NOT_DONE_YET:
+                stream += r
+        if w.path_ino is not None and w.path_ino != follow:
+            follow = w.path_ino; pos = 0
+        c = w.content(follow)
+        if len(c) < pos:
+            expected += MARKER + c; pos = len(c)
+        else:
+            expected += c[pos:]; pos = len(c)
+    try:
+        pull()
+        for op in script[1:]:
+            if op[0] == 'append': w.append(follow, op[1])
+            elif op[0] == 'rotate': w.rotate(op[1])
+            elif op[0] == 'clear':
+                w.truncate(follow, 0)
+                pull()
+                if op[1]: w.append(follow, op[1])
+            elif op[0] == 'truncate': w.truncate(follow, op[1])
+            elif op[0] == 'unlink': w.unlink()
+            pull()
+    except Exception as e:
+        ctx.violation('logtail-stream-raised:' + type(e).__name__, 'the producer chain raised %r' % (e,), inp)
+        w.close(); return
+    w.close()
+    # the client side, arbitrary fragmentation of everything including the response header
+    segs = split_random(rng, stream, rng.choice([1, 3, 10, 60]))
+    lst = RecListener()
+    from supervisor.http_client import HTTPHandler
+    h = HTTPHandler(lst, conn=None, map={}); h.url = 'u'
+    err = None
+    for s in segs:
+        h.recv = lambda n, s=s: s
+        try:
+            h.handle_read()
+        except Exception as e:
+            err = e; break
+    got = b''.join(lst.fed)
+    ctx.count('chain:cases'); ctx.count('chain:bytes', len(got))
+    ctx.case_done(('chain', main, ser(script), tuple(len(s) for s in segs)), nontrivial=True)
+    if err is not None or got != expected or lst.is_done:
+        ctx.violation('logtail-stream-mismatch', 'client got %d bytes, the statement requires %d (first difference at %d); error %r; done=%s'
+                      % (len(got), len(expected), next((i for i in range(min(len(got), len(expected))) if got[i] != expected[i]), min(len(got), len(expected))), err, lst.is_done),
+                      dict(inp, cuts=[len(s) for s in segs]))
+
+
+def run_chain(ctx):
+    rng = ctx.rng
+    scripts = [s for _, s in CORPUS_TAILF] + [gen_script(rng) for _ in range(ctx.n(60, 800))]
+    for i, s in enumerate(scripts):
+        chain_case(ctx, s, i, main=(i % 2 == 1))
+
+
+def run(ctx):
+    run_logread(ctx)
+    run_rpclog(ctx)
+    run_tailf(ctx)
+    run_chunked(ctx)
+    run_chain(ctx)
+
+
+def replay(ctx, data):
+    inp = data['input']
+    part = inp.get('part', 'logread')
+    if part == 'logread':
+        path = os.path.join(ctx.scratch, 'log')
+        content = bytes.fromhex(inp['content_hex']) if inp['content_hex'] != '-' else b''
+        open(path, 'wb').write(content)
+        line = impl_lines(path, content, [(inp['op'], inp['offset'], inp['length'])])[0]
+        want = (spec_read if inp['op'] == 'read' else spec_tail)(content, inp['offset'], inp['length'])
+        if line != want:
+            ctx.violation(data.get('violation_kind', 'wrong-window'), 'required %s, observed %s' % (want, line), inp)
+    elif part == 'rpclog':
+        content = bytes.fromhex(inp['content_hex']) if inp['content_hex'] != '-' else b''
+        rpc_one(ctx, inp['mood'], inp['log'], content, [(inp['method'], inp['name'] == 'grp:proc', inp['offset'], inp['length'])],
+                os.path.join(ctx.scratch, 'rpclog'), [], [], force_xml=True)
+    elif part == 'tailf':
+        tailf_case(ctx, deser(inp['script']), inp['head'], 0)
+    elif part == 'chain':
+        chain_case(ctx, deser(inp['script']), 0, inp['main'])
+    elif part == 'chunkenc':
+        enc_case(ctx, [tuple([i[0]] + ([bytes.fromhex(i[1])] if i[0] == 'b' else i[1:])) for i in inp['items']])
+    elif part == 'chunkdec':
+        from supervisor.http import deferring_chunked_producer
+        chunks = [bytes.fromhex(c) for c in inp['chunks']]
+        prod = deferring_chunked_producer(Scripted(chunks + [b''] * 3))
+        s = b''.join(prod.more() for _ in chunks) + (prod.more() if inp['close'] else b'')
+        segs, i = [], 0
+        for n in inp['cuts']:
+            segs.append(s[i:i + n]); i += n
+        il, lst = dec_case(ctx, segs, inp.get('socket', False))
+        if b''.join(lst.fed) != b''.join(chunks):
+            ctx.violation('client-reassembly-wrong', 'reassembled %r' % (b''.join(lst.fed)[:40],), inp)
+
+
 # ---- MANIFEST metadata -----------------------------------------------------------------------
-TECHNIQUE = "Lean 4 theorems over a model whose comparisons/offset arithmetic are regenerated from options.py; differential correspondence against the real functions"
-LEVEL_TEXT = ("readFile_spec and tailFile_spec are proved for every file content and every integer offset/length "
-              "(no bound); the definitions they unfold are regenerated from /repo on each run, and the model is run "
-              "against the real functions on an exhaustive small grid plus random 32-bit values")
-LEVEL_NOTE = "trusts Lean's kernel, extract.py's expression translation, Python file-object semantics; text decoding and HTTP streaming parts: see DESIGN.md C16"
+TECHNIQUE = ("Lean 4 theorems over models whose comparisons, offset arithmetic, chunk framing, fault tables and decode flags are "
+             "regenerated from options.py/http.py/http_client.py/rpcinterface.py; refinement of the asynchat decoder loop to a "
+             "byte-at-a-time automaton (fragmentation invariance); differential correspondence against the real functions and classes")
+LEVEL_TEXT = ("readFile_spec/tailFile_spec for every content and every integer offset/length; the RPC wrappers answer NO_FILE/"
+              "BAD_ARGUMENTS/the decoded window and never another exception, for every decoder (log_rpc_never_raises); "
+              "tail_f_producer delivers exactly the appended bytes for every observation sequence with fixed inode and "
+              "non-decreasing size and restarts at 0 after rotation/truncation (tailf_appends, tailf_restart_*); the client "
+              "reassembles every chunk list under every fragmentation (chunk_roundtrip, decoder_fragmentation_invariant)")
+LEVEL_NOTE = ("trusts Lean's kernel, extract.py, Python file/stat semantics, CPython formatting/int/find/split and the UTF-8 codec, "
+              "asyncore socket plumbing; TCP is simulated by fragmentation; two open findings (XML-RPC transport of control characters / CR)")
 DESIGN_REF = "DESIGN.md section 6, C16"
